@@ -803,8 +803,9 @@ func (s *Sim) loop() {
 		}
 		dl := s.nextDeadline()
 		choice := -100
-		if cfg.Policy == PolScript {
-			// scripted replay
+		if cfg.Policy == PolScript && (ne > 0 || dl >= 0) {
+			// scripted replay (only when there is something to choose: fair retry rounds and
+			// the stuck/deadlock verdicts below are consequences, not choices)
 			for scriptPos < len(cfg.Script) {
 				c := int(cfg.Script[scriptPos])
 				scriptPos++
